@@ -95,9 +95,43 @@ def _with_probes(ops, rng=None, full=False):
     return dict(cmds=cmds)
 
 
+# hook-only LEAVES (no route at or below them): after remove_route_hook the node is pruned like a removed route, so the
+# position is free again for ANOTHER filter / other text, as in a router that never saw the hook
+HL_LEAVES = ['/item/<id:int>', '/item/<id>', '/item/<id:float>', '/item/<p:path>', '/item/new', '/item/<id:int>/log',
+             '/item/<id:int>.json', '/item']
+HL_LATER = ['/item/<slug>', '/item/<s:re:[a-z]+>', '/item/<f:float>', '/item/<id:int>/x', '/item/<q:path>/end', '/item/new', '/it']
+HL_PATHS = ['/item/5', '/item/abc', '/item/2.5', '/item/5/log', '/item/5/x', '/item/a/b/end', '/item/new', '/item', '/it', '/item/5.json']
+
+
+def _hook_leaf_case(leaf, later, later_hook, partial=False, sibling=None, again=None):
+    A = lambda rule, h=1: dict(op='add', rule=rule, methods=['GET'], h=h)
+    ops = ([A(sibling, 9)] if sibling else []) + [
+        dict(op='add_hook', rule=leaf, h=50, partial=partial), dict(op='remove_hook', rule=leaf),
+        dict(op='add_hook', rule=later, h=51) if later_hook else A(later, 2)]
+    if again:
+        ops += [A(again, 3)]
+    probes = ([dict(op='dispatch', path=p, verb='GET') for p in HL_PATHS] + [dict(op='listing'), dict(op='iter', startswith='item')])
+    cmds = []
+    for o in ops:
+        cmds += [o] + probes
+    return dict(cmds=cmds, oracle_from=1)       # oracle_from: the fresh-router comparison also runs on this case's own probes
+
+
+def _hook_leaf_corpus():
+    out = []
+    for i, leaf in enumerate(HL_LEAVES):
+        for j, later in enumerate(HL_LATER):
+            if (i + j) % 2 == 0 or leaf == later:
+                continue
+            out.append(_hook_leaf_case(leaf, later, later_hook=(i + 2 * j) % 3 == 0, partial=(i + j) % 5 == 0,
+                                       sibling=[None, '/other', '/it'][(i * 3 + j) % 3], again=leaf if j % 3 == 0 else None))
+    return out
+
+
 def corpus():
     A = lambda rule, h=1, ms=('GET',), **kw: dict(op='add', rule=rule, methods=list(ms), h=h, **kw)
     cs = []
+    cs += _hook_leaf_corpus()
     # F14 witnesses
     cs.append(_with_probes([dict(op='add_hook', rule='/a/b', h=50), A('/a/b/c'), dict(op='remove', rule='/a/b/c'),
                             A('/a/b/c', 2)], full=True))
@@ -221,6 +255,11 @@ def _gen_ops(rng, n, admissible=True):
 def gen(rng, n):
     n_in = max(1, n // 15)
     for _ in range(n - n_in):
+        if rng.random() < 0.15:
+            leaf = rng.choice(HL_LEAVES)
+            yield _hook_leaf_case(leaf, rng.choice([x for x in HL_LATER if x != leaf]), rng.random() < 0.3, rng.random() < 0.25,
+                                  rng.choice([None, '/other', '/it', '/item']), rng.choice([None, None, leaf]))
+            continue
         c = _with_probes(_gen_ops(rng, rng.choice([4, 6, 8, 10, 14, 20, 30])), rng)
         if rng.random() < 0.1:
             # another application edited in between: nothing of it may show in this one
@@ -453,6 +492,12 @@ def _oracle(case, obs):
                 to = [s_(n[1]['pattern']) for n in after['named'] if s_(n[0]) == c['name']]
                 if to != [pat]:
                     return 'after the accepted %s the name %r leads to %s, expected %r' % (_show(c), c['name'], to, pat)
+        if c['op'] in ('add', 'add_hook') and res == 1:
+            # refused for a filter mismatch: a router freshly built from what is registered must refuse it too (no filter
+            # may linger at a position nothing registered uses any more)
+            f0, why0 = _fresh_from(a, ctx, hook_rule)
+            if f0 is not None and f0.run(c) == 0:
+                return '%s is refused (filter mismatch) but a fresh router built from the surviving routes/hooks accepts it' % _show(c)
         if before is not None and res in (1, 2, 3, 4, 5, 8):
             # refused by the tree (filter conflict ...) or by the method table: the check runs before any write
             after = a.run(dict(op='listing'))
